@@ -49,9 +49,12 @@ def finish(prop, tier, seed, t0, level, proof, suites, monitors, widen=None, ass
         # group by key, report the first of each group minimised
         by_key = {}
         for f in unknown: by_key.setdefault(f.key, f)
+        printed = set()
         for key, f in list(by_key.items())[:5]:
             fm = minimise(prop, f, monitors)
             replay = failure_replay(prop, fm)
+            if replay in printed: continue
+            printed.add(replay)
             print(f"VIOLATION property={prop} replay={replay}")
             log(f"  {fm.key} on shape {fm.scenario.shape} ({fm.profile}): {fm.what[:300]}")
             log(f"  scenario: {' ; '.join(fm.scenario.lines)}")
